@@ -1234,6 +1234,16 @@ impl Interp {
                 };
                 self.push(n)
             }
+            "exporthandle" => {
+                // a program handle on the exported node itself (a bind closure can then return it: `ret t<h>`)
+                let k = p.nat();
+                let n = {
+                    let ex = self.ctx.exports.borrow();
+                    if ex.is_empty() { None } else { Some(ex[k % ex.len()].clone()) }
+                };
+                let n = n.unwrap_or_else(|| self.state.constant(Val::Int(0)));
+                self.push(n)
+            }
             "cloneobs" => {
                 let o = p.nat();
                 let c = self.obs0(o).expect("clone of dropped observer");
